@@ -1,2 +1,190 @@
-import AlgoVerif.Common
-/-! # C20 — property theorems (none yet) -/
+import AlgoVerif.Proofs.C20Example
+import AlgoVerif.Model.C20
+/-!
+# C20 — property theorems (helper lemmas in `Proofs/C20.lean`)
+
+Reading of the property.  "Two goroutines that each work only on objects they created themselves
+never race with one another; results are the same as when the goroutines run one after the other,
+under every interleaving."  It has two halves, and only the first can be a theorem about all
+interleavings:
+
+**Abstract half (proved here, for all programs, schedules and memories).**  `Spec/C20.lean`: any number
+of threads, each an arbitrary deterministic state machine whose steps `load`/`store` single memory
+locations (control flow may depend on the values read); locations are partitioned by `owner` into
+per-thread private heaps (`some t`) and the package-level cells `G` (`none`); no synchronisation events,
+so a data race is a pair of accesses to one location by different threads, one of them a write.
+`Disciplined P owner` = every thread reads only its own heap and `G`, and writes only its own heap
+(`∀ t, writes t ∩ G = ∅`, and private heaps are private).  Then, for EVERY schedule:
+no race (`C20_race_free`); the final configuration — every thread's local state, i.e. its results,
+and the whole memory — depends only on how many steps each thread took (`C20_schedule_independent`),
+in particular it is the configuration reached when the goroutines run one after the other
+(`C20_drf_of_no_shared_writes`); and two schedules that both run every goroutine to completion agree
+whatever their lengths (`C20_complete_results_agree`).  The hypothesis is necessary: the two
+`example`s at the end exhibit a race and a schedule-dependent result (a lost update) as soon as two
+threads write one package-level cell — the abstract shape of defect D25.
+
+**Repo half (a `decide` over a table regenerated from /repo's source on every run).**
+`Generated/C20.lean` is written by `bin/pre-C20`: all package-level variables of the library and, for
+every exported API entry, the package-level variables that reachable code may mutate (assigned
+through, state-changing method called on it, passed to something that writes through it, or a closure
+value that mutates what it captured).  `C20_repo` says the mutated list of every API entry is empty —
+the library instance of `writes t ∩ G = ∅`.  A new package-level cache written by some API, a shared
+hasher captured by a package-level closure, or a package-level `*rand.Rand` with its own state makes
+the regenerated table non-empty and this file stops compiling.
+
+What is NOT proved (named in meta/C20.json): that Go code is such a state machine under the Go
+memory model; that the extractor's may-mutate analysis is sound; that instances created by one
+goroutine are unreachable from the other (that is the premise "objects they created themselves").
+The race-detector runs of the harness cover the concrete code under many schedules.
+-/
+open AlgoVerif AlgoVerif.C20
+
+/-- **No data race under any interleaving.**  If every thread writes only its own heap (no write to a
+package-level cell) and reads only its own heap and package-level cells, then no schedule — of any
+length, any number of threads, any programs, any initial memory — contains two conflicting accesses by
+different threads. -/
+theorem C20_race_free {Loc Val Local : Type} [DecidableEq Loc]
+    (P : Prog Loc Val Local) (owner : Loc → Option Tid) (hD : Disciplined P owner)
+    (s : List Tid) (c : Cfg Loc Val Local) : RaceFree (trace P s c) := by
+  intro e₁ h₁ e₂ h₂ hne hloc
+  have o₁ := trace_owner hD s c e₁ h₁
+  have o₂ := trace_owner hD s c e₂ h₂
+  have key : ∀ (a b : Event Loc), a.tid ≠ b.tid → a.loc = b.loc →
+      ((a.isWrite = true → owner a.loc = some a.tid) ∧
+        (a.isWrite = false → owner a.loc = some a.tid ∨ owner a.loc = none)) →
+      ((b.isWrite = true → owner b.loc = some b.tid) ∧
+        (b.isWrite = false → owner b.loc = some b.tid ∨ owner b.loc = none)) →
+      a.isWrite = false := by
+    intro a b hab hl oa ob
+    cases hw : a.isWrite with
+    | false => rfl
+    | true =>
+      exfalso
+      have ha : owner a.loc = some a.tid := oa.1 hw
+      cases hb : b.isWrite with
+      | true =>
+        have := ob.1 hb
+        rw [← hl, ha] at this
+        exact hab (Option.some.inj this)
+      | false =>
+        rcases ob.2 hb with h | h
+        · rw [← hl, ha] at h
+          exact hab (Option.some.inj h)
+        · rw [← hl, ha] at h
+          cases h
+  exact ⟨key e₁ e₂ hne hloc o₁ o₂, key e₂ e₁ (fun e => hne e.symm) hloc.symm o₂ o₁⟩
+
+/-- **Results do not depend on the interleaving.**  Two schedules in which every thread takes the same
+number of steps (one is a permutation of the other) end in the same configuration: same local state
+of every thread (its results) and same memory. -/
+theorem C20_schedule_independent {Loc Val Local : Type} [DecidableEq Loc]
+    (P : Prog Loc Val Local) (owner : Loc → Option Tid) (hD : Disciplined P owner)
+    (s s' : List Tid) (h : ∀ t, s.count t = s'.count t) (c : Cfg Loc Val Local) :
+    run P s c = run P s' c :=
+  run_perm hD (List.perm_iff_count.mpr h) c
+
+/-- **C20, abstract form** (`drf_of_no_shared_writes` of DESIGN.md §6): under the ownership discipline
+every schedule is race free AND ends in the configuration of the sequential schedule that runs the
+goroutines one after the other (thread 0's steps, then thread 1's, …; `sequentialOf s` is sorted by
+thread id and gives every thread as many steps as `s` does). -/
+theorem C20_drf_of_no_shared_writes {Loc Val Local : Type} [DecidableEq Loc]
+    (P : Prog Loc Val Local) (owner : Loc → Option Tid) (hD : Disciplined P owner)
+    (s : List Tid) (c : Cfg Loc Val Local) :
+    RaceFree (trace P s c) ∧ run P s c = run P (sequentialOf s) c ∧
+      (sequentialOf s).Pairwise (· ≤ ·) ∧ ∀ t, (sequentialOf s).count t = s.count t := by
+  refine ⟨C20_race_free P owner hD s c, ?_, ?_, ?_⟩
+  · exact run_perm hD (List.mergeSort_perm s _).symm c
+  · have := List.pairwise_mergeSort (le := fun a b : Nat => decide (a ≤ b))
+      (fun a b c h1 h2 => by
+        simp only [decide_eq_true_eq] at *
+        exact Nat.le_trans h1 h2)
+      (fun a b => by
+        simp only [Bool.or_eq_true, decide_eq_true_eq]
+        exact Nat.le_total a b) s
+    exact this.imp (fun h => by simpa using h)
+  · intro t
+    exact (List.mergeSort_perm s _).count_eq t
+
+/-- Two schedules that both run every goroutine to completion end in the same configuration, whatever
+their lengths and orders (steps taken after a goroutine has finished change nothing). -/
+theorem C20_complete_results_agree {Loc Val Local : Type} [DecidableEq Loc]
+    (P : Prog Loc Val Local) (owner : Loc → Option Tid) (hD : Disciplined P owner)
+    (s s' : List Tid) (c : Cfg Loc Val Local)
+    (hs : Complete P (run P s c)) (hs' : Complete P (run P s' c)) :
+    run P s c = run P s' c := by
+  have e1 : run P (s ++ s') c = run P s c := by
+    rw [run_append, run_of_complete P hs]
+  have e2 : run P (s' ++ s) c = run P s' c := by
+    rw [run_append, run_of_complete P hs']
+  rw [← e1, ← e2]
+  exact run_perm hD List.perm_append_comm c
+
+/-- **The library instance** of `∀ t, writes t ∩ G = ∅`: in the table regenerated from /repo's current
+source no exported API entry reaches code that may mutate a package-level variable. -/
+theorem C20_repo : ∀ api ∈ Generated.C20.apiReach, api.mutatedGlobals = [] := by
+  have h : ∀ chunk ∈ Generated.C20.apiChunks, ∀ api ∈ chunk, api.mutatedGlobals = [] := by
+    decide +kernel
+  intro api hapi
+  rcases List.mem_flatten.mp hapi with ⟨chunk, hc, ha⟩
+  exact h chunk hc api ha
+
+/-- the same fact read from the table of package-level variables: none is marked as mutated by
+API-reachable code, and the derived list of mutated variables is empty -/
+theorem C20_repo_globals :
+    (∀ g ∈ Generated.C20.globals, g.mutated = false) ∧ Generated.C20.mutatedGlobals = [] := by
+  decide
+
+/-- hence the Model (whose answer the driver prints, computed from the table) never predicts a race,
+for ANY list of API entries a workload might exercise: it answers `norace`, or reports entries that
+are missing from the table. -/
+theorem C20_model_predicts_norace (es : List String) :
+    predictEntries es = Prediction.norace ∨ ∃ ns, predictEntries es = Prediction.unknownApi ns := by
+  unfold predictEntries
+  simp only
+  split
+  · exact Or.inr ⟨_, rfl⟩
+  · left
+    have hall : ∀ e, (lookupApi e).getD [] = [] := by
+      intro e
+      unfold lookupApi
+      cases hf : Generated.C20.apiReach.find? (fun x => decide (x.api = e)) with
+      | none => rfl
+      | some a =>
+        have hm : a ∈ Generated.C20.apiReach := List.mem_of_find?_eq_some hf
+        simp [C20_repo a hm]
+    have hnil : ∀ l : List String, (l.flatMap fun e => (lookupApi e).getD []) = [] := by
+      intro l
+      induction l with
+      | nil => rfl
+      | cons e l ih => rw [List.flatMap_cons, hall e, ih]; rfl
+    rw [hnil es]
+    rfl
+
+/-! ### non-vacuity -/
+
+open C20Example
+
+/-- an interleaved schedule of three goroutines and the sequential one give the same memory and the
+same results; the interleaved trace has 12 accesses, 3 of them to the shared read-only cell -/
+example : run prog [0, 1, 2, 1, 0, 2, 2, 0, 1, 1, 2, 0] c0 = run prog [0, 0, 0, 0, 1, 1, 1, 1, 2, 2, 2, 2] c0 :=
+  C20_schedule_independent prog owner disciplined _ _ (List.perm_iff_count.mp (by decide)) c0
+
+example : ((run prog [0, 1, 2, 1, 0, 2, 2, 0, 1, 1, 2, 0] c0).mem 0,
+           (run prog [0, 1, 2, 1, 0, 2, 2, 0, 1, 1, 2, 0] c0).mem 1,
+           (run prog [0, 1, 2, 1, 0, 2, 2, 0, 1, 1, 2, 0] c0).mem 2) = (16, 27, 20) := by decide
+
+example : (trace prog [0, 1, 2, 1, 0, 2, 2, 0, 1, 1, 2, 0] c0).length = 12 := by decide
+
+example : RaceFree (trace prog [0, 1, 2, 1, 0, 2, 2, 0, 1, 1, 2, 0] c0) :=
+  C20_race_free prog owner disciplined _ c0
+
+/-- D25 in the abstract (`C20Example.bad`): both threads do `cell100 := cell100 + 1` on the PACKAGE-LEVEL
+cell 100 (a shared hasher / random source).  The discipline fails, there is a race, and the result
+depends on the schedule (lost update: 9 when the goroutines run one after the other, 8 interleaved). -/
+example : ¬ RaceFree (trace bad [0, 1, 0, 1] c0) := by
+  intro h
+  have := h ⟨0, 100, false⟩ (by decide) ⟨1, 100, true⟩ (by decide) (by decide) rfl
+  exact absurd this.2 (by decide)
+
+example : (run bad [0, 0, 1, 1] c0).mem 100 = 9 ∧ (run bad [0, 1, 0, 1] c0).mem 100 = 8 := by decide
+
